@@ -845,6 +845,8 @@ impl LiveActor {
 #[cfg(iroh_docs_verif)]
 pub mod verif {
     use super::*;
+    /// the events the live actor sends to its subscribers
+    pub use super::Event as ActorEvent;
 
     /// A live actor whose handlers are called by the harness.
     #[derive(derive_more::Debug)]
